@@ -68,6 +68,12 @@ def run(ctx):
             _r2_fixed(rc, m, f"{q}[{oname}]")
     _r3_sorted(rc, models[("rdp._rdp_fixed", "segment")], models[("rdp._grdp", "segment")])
     _seeds(rc)
+    # the ordering scores are computed for every child that is pushed, two-point children included: a score that is not the stated
+    # one may not even be defined there (a maximum over an empty interior raises and the simplifier returns nothing)
+    from . import c05 as _c05
+    res.rule("R8", "the ordering helpers called by the fixed / global loops are the stated scores of the two halves (defined for every child, two-point children included)")
+    from .common import borrow as _borrow8
+    _borrow8(rc, "R8", _c05._x6)
     _r4(rc, models[("rdp.rdp", "smape")])
     from .common import borrow as _borrow
     _borrow(rc, "R4", lambda rc_: rm.check_result_pairing(rc_, "R4"))        # every exit of the wrappers returns a table computed for the returned reduction
